@@ -35,6 +35,15 @@ def _has_quant(e):
   return r
 
 
+def _conjuncts(g):
+  if z3.is_and(g):
+    out = []
+    for c in g.children():
+      out.extend(_conjuncts(c))
+    return out
+  return [g]
+
+
 class Obligation(object):
   def __init__(self, unit, name, desc, hyps, goal, line, path):
     self.unit = unit
@@ -61,6 +70,7 @@ class UnitResult(object):
     self.obligations = []
     self.error = None        # Unsupported / SourceError text -> undecided
     self.cover = None        # True: precondition satisfiable
+    self.cover_full = None   # True: incl. quantified clauses (model found)
     self.paths = 0
     self.exit_reached = 0
     self.source_hash = None
@@ -102,6 +112,7 @@ class Engine(HeapMixin, ExprMixin, AccessMixin, CallMixin, StmtMixin):
     self.const_state.alloc = z3.IntVal(0)
     self.yield_counter = {}
     self.relies = {}
+    self._ob_names = {}
 
   # ------------------------------------------------------------------ solver helpers
   def feasible(self, st, strong=False):
@@ -123,10 +134,19 @@ class Engine(HeapMixin, ExprMixin, AccessMixin, CallMixin, StmtMixin):
     return s.check() != z3.unsat
 
   def oblige(self, st, name, goal, node, desc):
+    parts = _conjuncts(goal)
+    if len(parts) > 1:
+      for n, p in enumerate(parts):
+        self._oblige1(st, '%s.%d' % (name, n), p, node, '%s [conjunct %d]' % (desc, n))
+    else:
+      self._oblige1(st, name, goal, node, desc)
+
+  def _oblige1(self, st, name, goal, node, desc):
     sb = simp_bool(goal)
     ob = Obligation(self.unit, name, desc, list(st.pc), goal, getattr(node, 'lineno', None), list(st.path))
     # distinguish several occurrences of the same obligation on different paths
-    n = sum(1 for o in self.obligations if o.name == name or o.name.startswith(name + '~'))
+    n = self._ob_names.get(name, 0)
+    self._ob_names[name] = n + 1
     if n:
       ob.name = '%s~%d' % (name, n)
     if sb is True:
@@ -148,6 +168,7 @@ class Engine(HeapMixin, ExprMixin, AccessMixin, CallMixin, StmtMixin):
     t0 = time.time()
     self.unit = name
     self.obligations = []
+    self._ob_names = {}
     self.dropped = set()
     self.inlined = set()
     self.externs_used = set()
@@ -213,14 +234,25 @@ class Engine(HeapMixin, ExprMixin, AccessMixin, CallMixin, StmtMixin):
       st.assume(self.spec_bool(st, cx, r))
     for r in spec.entry_assume:
       st.assume(self.spec_bool(st, cx, r))
-    # cover check: the precondition must be satisfiable
+    # cover check: the precondition must be satisfiable.  Models of quantified formulas are
+    # expensive to find, so: refute-or-model the quantifier-free part, then try the full
+    # condition under a short budget ('sat' = confirmed, 'unknown' = quantifier-free only).
+    qf = [c for c in st.pc if not _has_quant(c)]
     s = z3.Solver()
-    s.set('timeout', 20000)
-    s.add(*st.pc)
+    s.set('timeout', 10000)
+    s.add(*qf)
     c = s.check()
-    res.cover = (c == z3.sat) if c != z3.unknown else None
     if c == z3.unsat:
       raise Unsupported('vacuous: precondition of %s is unsatisfiable' % name)
+    res.cover = True if c == z3.sat else None
+    if len(qf) != len(st.pc):
+      s = z3.Solver()
+      s.set('timeout', 3000)
+      s.add(*st.pc)
+      c2 = s.check()
+      if c2 == z3.unsat:
+        raise Unsupported('vacuous: precondition of %s is unsatisfiable' % name)
+      res.cover_full = (c2 == z3.sat)
     self.entry_state_pc = list(st.pc)
     self.entry_params = dict(st.entry_args)
     modkeys = self.keys_of_patterns(spec.modifies)
@@ -239,6 +271,8 @@ class Engine(HeapMixin, ExprMixin, AccessMixin, CallMixin, StmtMixin):
         for n, e in enumerate(spec.ensures):
           self.oblige(s1, 'post[%s#%d]' % (name, n), self.spec_bool(s1, cx, e), fnode, 'postcondition %r' % e)
         self.check_frame(s1, entry, modkeys, 'frame[%s]' % name, fnode)
+        if not spec.allocates and s1.alloc is not entry['$alloc']:
+          self.oblige(s1, 'no-alloc[%s]' % name, s1.alloc == entry['$alloc'], fnode, 'the function allocates nothing (allocates=False)')
       elif kind == 'exc':
         exc = val
         allowed = None
